@@ -273,21 +273,39 @@ def run_register(cx, spec, rng):
     class VerifPairedAnswer(VerifPaired):
         pass
 
+    class VerifSpecialV2(DefinedMessage):
+        code: int = 7654321
+        name: str = "Verif-Special-V2"
+
+        def __post_init__(self):
+            self.header.command_code = self.code
+            super().__post_init__()
+
+    T = cx.T
+    base_table = {k: v for k, v in cx.L.command_table().items() if k not in (7654321, 7654322)}
+
+    def phase(name, table, n):
+        # the model table is explicit per phase: what register() has been told so far
+        cx.table = table
+        cx.contracts._TABLE = table
+        cx.cov.setdefault("register_phases", {})[name] = n
+        for i in range(n):
+            nodes = T.random_forest(rng, rng.randrange(0, 8), maxdepth=4)
+            body = b"".join(T.ref_bytes(x) for x in nodes)
+            for code in (7654321, 7654322):
+                for fl in ([0x80, 0] if i == 0 else [rng.choice([0x80, 0, 0xc0, 0x40, 0x90, 0x20])]):
+                    wire = R.enc_msg(code, app=rng.getrandbits(32), flags=fl, hbh=rng.getrandbits(32),
+                                     e2e=rng.getrandbits(32), avps=body)
+                    check_wire(cx, wire, rng, sample=(i == 0))
+
+    # the scenario of register()'s own documentation: the code is first seen as unknown, then registered,
+    # then overwritten by a later registration ("that implementation will be overwritten")
+    phase("before_register", dict(base_table), 8)
     commands.register(VerifSpecial)
     commands.register(VerifPaired)
-    cx.contracts.reset_table()
-    cx.table = cx.L.command_table()
-    if cx.table.get(7654321) is not VerifSpecial or cx.table.get(7654322) is not VerifPaired:
-        cx.witness("register.model_mismatch", {"table": str(cx.table.get(7654321))})
-    T = cx.T
-    for i in range(60):
-        nodes = T.random_forest(rng, rng.randrange(0, 8), maxdepth=4)
-        body = b"".join(T.ref_bytes(n) for n in nodes)
-        for code in (7654321, 7654322):
-            fl = rng.choice([0x80, 0, 0xc0, 0x40, 0x90, 0x20])
-            wire = R.enc_msg(code, app=rng.getrandbits(32), flags=fl, hbh=rng.getrandbits(32),
-                             e2e=rng.getrandbits(32), avps=body)
-            check_wire(cx, wire, rng, sample=(i == 0))
+    phase("registered", {**base_table, 7654321: VerifSpecial, 7654322: VerifPaired}, 60)
+    commands.register(VerifSpecialV2)
+    phase("overwritten", {**base_table, 7654321: VerifSpecialV2, 7654322: VerifPaired}, 12)
 
 
 def random_wire(cx, rng, max_avps=40, maxdepth=6):
